@@ -310,6 +310,8 @@ struct DieselSubject {
     /// serials whose scripted check fails (method `custom`)
     invalid: Arc<Mutex<HashMap<usize, bool>>>,
     custom: bool,
+    /// method `CustomQuery`: the validity check is a query on a table that `Spoil::Invalid` drops
+    custom_query: bool,
 }
 
 fn diesel_serial(conn: &mut diesel::SqliteConnection) -> Result<i32, diesel::result::Error> {
@@ -337,6 +339,7 @@ impl Subject for DieselSubject {
                     .interact(move |conn| {
                         let v = diesel_serial(conn)?;
                         if v == 0 {
+                            let _ = diesel::sql_query("CREATE TABLE IF NOT EXISTS verif_check (ok INTEGER)").execute(conn)?;
                             let _ = diesel::sql_query(format!("PRAGMA user_version = {}", next + 1)).execute(conn)?;
                             Ok::<_, diesel::result::Error>(-1)
                         } else {
@@ -371,7 +374,11 @@ impl Subject for DieselSubject {
                     .await;
             }
             Spoil::Invalid => {
-                let _ = self.invalid.lock().unwrap().insert(serial, true);
+                if self.custom_query {
+                    let _ = c.interact(|conn| diesel::sql_query("DROP TABLE IF EXISTS verif_check").execute(conn)).await;
+                } else {
+                    let _ = self.invalid.lock().unwrap().insert(serial, true);
+                }
             }
             Spoil::Cancelled => {
                 start_and_cancel(c.interact(|_| std::thread::sleep(Duration::from_micros(300))));
@@ -526,12 +533,13 @@ fn main() {
                     history(&mut s, &mut rng, &format!("sp cfg kind=sqlite max={max} method=fast"), max, len).await;
                 }
                 _ => {
-                    let method = rng.below(3);
+                    let method = rng.below(4);
                     let invalid: Arc<Mutex<HashMap<usize, bool>>> = Arc::default();
                     let inv2 = invalid.clone();
                     let recycling_method = match method {
                         0 => deadpool_diesel::RecyclingMethod::Fast,
                         1 => deadpool_diesel::RecyclingMethod::Verified,
+                        3 => deadpool_diesel::RecyclingMethod::CustomQuery("SELECT ok FROM verif_check".into()),
                         _ => deadpool_diesel::RecyclingMethod::CustomFunction(Box::new(move |conn| {
                             let v = diesel_serial(conn).map_err(deadpool_diesel::Error::Ping)?;
                             if v > 0 && *inv2.lock().unwrap().get(&(v as usize - 1)).unwrap_or(&false) {
@@ -551,7 +559,7 @@ fn main() {
                         .runtime(deadpool_diesel::Runtime::Tokio1)
                         .build()
                         .unwrap();
-                    let mut s = DieselSubject { pool, next: 0, invalid, custom: method == 2 };
+                    let mut s = DieselSubject { pool, next: 0, invalid, custom: method >= 2, custom_query: method == 3 };
                     let m = if method == 0 { "fast" } else { "verified" };
                     history(&mut s, &mut rng, &format!("sp cfg kind=diesel max={max} method={m}"), max, len).await;
                 }
